@@ -104,7 +104,7 @@ def _center(rng, r):
     if k < 0.15:
         return [0., 0., 0.]
     if k < 0.35:
-        return [float(rng.randint(-12, 12)) for _ in range(3)]  # whole numbers: handed over as an integer Vec / tuple / array (see _materialise)
+        return [float(rng.randint(-12, 12)) for _ in range(3)]  # whole numbers: handed over as an integer Vec / array (see _materialise)
     return _pt(rng, r * rng.choice([0.5, 3.0, 30.0]))
 
 
@@ -179,6 +179,8 @@ def cases(seed, tier):
                 if abs(np.linalg.det(np.array([X, Y, Z]))) > 0.02 * s ** 3:
                     break
             P = [P1] + [[_r6(P1[k] + w[k]) for k in range(3)] for w in (X, Y, Z)]
+            if abs(np.linalg.det(np.array(P[1:]) - np.array(P1))) <= 0.01 * s ** 3:
+                P = [P1] + [[P1[k] + w[k] for k in range(3)] for w in (X, Y, Z)]  # rounding to six decimals would flatten a tiny box: keep it as drawn
             add("hexahedron_4pts", {**{"P%d" % (i + 1): q for i, q in enumerate(P)}, "colored": col, "volume": vol})
     for _ in range(2 * rep):
         add("octahedron", {})
@@ -373,7 +375,9 @@ def _materialise(gen, p, desc):
     for k, v in p.items():
         if k in POINT_PARAMS and all(float(x).is_integer() for x in v) and any(x != 0 for x in v) and desc["seed"] % 3 != 0:
             iv = [int(x) for x in v]
-            args[k] = [M.Vec(*iv), tuple(iv), np.array(iv)][desc["seed"] % 3]  # a point written with whole numbers is an integer array
+            # a point written with whole numbers is an integer array (Vec or plain ndarray: the parameters are documented as Vec, whose arithmetic
+            # both have; plain tuples are not handed over, hexahedron_4pts legitimately subtracts its arguments)
+            args[k] = [M.Vec(*iv), M.Vec(*iv), np.array(iv)][desc["seed"] % 3]
         elif k in POINT_PARAMS:
             args[k] = M.Vec(*v)
         elif desc.get("num") == "np" and isinstance(v, int) and not isinstance(v, bool):
